@@ -70,6 +70,7 @@ Proof.
 Qed.
 
 (* ---------- C17: a file-system model ---------- *)
+From KT Require Export Model.Fs.
 Lemma list_eqb_refl p : list_eqb p p = true.
 Proof. induction p as [|a p IH]; cbn; [reflexivity|]. now rewrite N.eqb_refl, IH. Qed.
 Lemma list_eqb_eq p : forall q, list_eqb p q = true -> p = q.
@@ -79,15 +80,7 @@ Proof.
 Qed.
 
 Section Fs.
-Definition path := list N.
-Definition fs := list (path * list N).
-Fixpoint fs_remove (p : path) (f : fs) : fs :=
-  match f with [] => [] | (q, c) :: t => if list_eqb p q then fs_remove p t else (q, c) :: fs_remove p t end.
-(* File::create and mmap_file_for_writing (truncate + set_len) replace the whole content *)
-Definition fs_write (p : path) (c : list N) (f : fs) : fs := (p, c) :: fs_remove p f.
-Fixpoint fs_read (p : path) (f : fs) : option (list N) :=
-  match f with [] => None | (q, c) :: t => if list_eqb p q then Some c else fs_read p t end.
-
+(* path, fs, fs_remove, fs_write, fs_read: Model/Fs.v *)
 Lemma read_write_same p c f : fs_read p (fs_write p c f) = Some c.
 Proof. unfold fs_write. cbn. now rewrite list_eqb_refl. Qed.
 
